@@ -391,7 +391,7 @@ theorem set_loc_pointer_is_c05 (m : Mode) (e : Endian) (enc : Nat) (c : DecodeCf
   Spec.Cfi.parseEncodedPointerDirect_eq m e enc c pos bs
 
 /-- the operand relation of the encoding table contains everything C05's Spec encoder
-`Frame.encodeOperand` emits (and additionally `sleb128` and padded LEB128 operands) -/
+`Frame.encodeOperand` emits, in all nine value formats (and additionally padded LEB128 operands) -/
 theorem set_loc_operand_covers_c05_encoder (e : Endian) (enc asz x : Nat) (bytes : Bytes)
     (h : Spec.Frame.encodeOperand e enc asz x = some bytes) : Spec.Cfi.Operand e asz enc x bytes :=
   Spec.Cfi.operand_of_encodeOperand h
